@@ -129,8 +129,43 @@ class PrinterModel:
                 try:
                     return eval(compile(ast.Expression(tabs[name]), "<class-table>", "eval"), {"__builtins__": {}, base.__name__: base})
                 except Exception as e:
+                    folded = self._fold_with_av(g, tabs[name], base)
+                    if folded is not None:
+                        return folded
                     raise AnalysisError(f"cannot constant-fold {g.name}.{name}: {type(e).__name__}: {e}")
         return getattr(self.sympy_base[printer], name, None)
+
+    def _fold_with_av(self, g: Cls, node, base):
+        """The table is built by module-level helpers of the package: propagate constants through them with the
+        abstract evaluator (the sympy base's own tables enter as constant dicts); None when the result is not a
+        dict of constants."""
+        import copy
+
+        from . import av
+
+        env = {}
+
+        class Sub(ast.NodeTransformer):
+            def visit_Attribute(self, n):
+                if isinstance(n.value, ast.Name) and n.value.id == base.__name__ and isinstance(getattr(base, n.attr, None), dict):
+                    nm = f"__{base.__name__}_{n.attr}"
+                    tbl = getattr(base, n.attr)
+                    if not all(isinstance(k, str) and isinstance(v, str) for k, v in tbl.items()):
+                        return n
+                    env[nm] = ("dict", tuple((av.C(k), av.C(v)) for k, v in tbl.items()))
+                    return ast.copy_location(ast.Name(id=nm, ctx=ast.Load()), n)
+                return self.generic_visit(n)
+
+        expr = Sub().visit(copy.deepcopy(node))
+        ast.fix_missing_locations(expr)
+        try:
+            A = av.AV(self.sm, inline=lambda c: True)
+            v = A.expr(expr, env, g.rel, None)
+        except Exception:
+            return None
+        if v[0] == "dict" and all(k[0] == "c" and x[0] == "c" for k, x in v[1]):
+            return {k[1]: x[1] for k, x in v[1]}
+        return None
 
 
 def fragments(f: Func) -> list[str]:
